@@ -900,6 +900,52 @@ fn edge_values(r: &mut Rng, ty: u8, ct: u8, unsigned: bool, n: usize) -> Vec<i12
     out
 }
 
+/// The seeded C15 plan: several integer cells that must be accepted, then possibly one that may be
+/// refused (Err or panic), each written through a probed write_col. Also run by C07 (binary rows).
+pub fn gen_c15_seeded(rng: &mut Rng) -> Plan {
+    // seeded: several must-accept cells, then possibly one may-refuse cell
+    let mut cells = Vec::new();
+    let n_must = rng.usize_below(12);
+    let mut guard = 0;
+    while cells.len() < n_must && guard < 200 {
+        guard += 1;
+        let ty = rng.below(10) as u8;
+        let col = *rng.pick(INT_COLS);
+        let (tlo, thi) = ty_range(ty);
+        let x = if ty >= 8 {
+            // pointer-sized: pick a value inside the column's logical range when possible
+            match logical_range(col.0, col.1) {
+                Some((lo, hi)) => int_edge(rng, lo.max(tlo), hi.min(thi)),
+                None => continue,
+            }
+        } else {
+            int_edge(rng, tlo, thi)
+        };
+        let cell = mk_int_cell(ty, x);
+        if must_accept(&cell, col.0, col.1) {
+            cells.push((cell, col.0, col.1));
+        }
+    }
+    if rng.chance(3, 4) {
+        let ty = rng.below(12) as u8;
+        let col = *rng.pick(INT_COLS);
+        let vals = edge_values(rng, ty, col.0, col.1, 8);
+        if !vals.is_empty() {
+            let x = *rng.pick(&vals);
+            cells.push((mk_int_cell(ty, x), col.0, col.1));
+        }
+    }
+    if cells.is_empty() {
+        cells.push((Cell::I64(0), 0x08, false));
+    }
+    c15_plan(cells, rng)
+}
+
+/// C15's oracle, for checks that run its plans as well
+pub fn c15_extra_judge(plan: &Plan, out: &Outcome, vs: &mut Vec<Violation>) {
+    C15.extra_judge(plan, out, vs)
+}
+
 impl C15 {
     /// sweep space of the 8-bit (quick) and 16-bit (thorough) types: job -> (type, column, chunk)
     fn sweep_jobs(tier: Tier) -> u64 {
@@ -982,42 +1028,7 @@ impl Check for C15 {
             ctx.eval(&plan);
             return;
         }
-        // seeded: several must-accept cells, then possibly one may-refuse cell
-        let mut cells = Vec::new();
-        let n_must = rng.usize_below(12);
-        let mut guard = 0;
-        while cells.len() < n_must && guard < 200 {
-            guard += 1;
-            let ty = rng.below(10) as u8;
-            let col = *rng.pick(INT_COLS);
-            let (tlo, thi) = ty_range(ty);
-            let x = if ty >= 8 {
-                // pointer-sized: pick a value inside the column's logical range when possible
-                match logical_range(col.0, col.1) {
-                    Some((lo, hi)) => int_edge(rng, lo.max(tlo), hi.min(thi)),
-                    None => continue,
-                }
-            } else {
-                int_edge(rng, tlo, thi)
-            };
-            let cell = mk_int_cell(ty, x);
-            if must_accept(&cell, col.0, col.1) {
-                cells.push((cell, col.0, col.1));
-            }
-        }
-        if rng.chance(3, 4) {
-            let ty = rng.below(12) as u8;
-            let col = *rng.pick(INT_COLS);
-            let vals = edge_values(rng, ty, col.0, col.1, 8);
-            if !vals.is_empty() {
-                let x = *rng.pick(&vals);
-                cells.push((mk_int_cell(ty, x), col.0, col.1));
-            }
-        }
-        if cells.is_empty() {
-            cells.push((Cell::I64(0), 0x08, false));
-        }
-        let plan = c15_plan(cells, rng);
+        let plan = gen_c15_seeded(rng);
         ctx.eval(&plan);
     }
     fn owns(&self, rule: &str) -> bool {
